@@ -269,11 +269,13 @@ func (g *G) Message(hostile bool) string {
 		return plain.Draw(g.T, "msg")
 	}
 	m := ""
-	switch g.Int(-3, 7, "msgClass") {
+	switch g.Int(-4, 7, "msgClass") {
 	case -3:
 		m = g.Pick([]string{"raise coverage to 100% of cmd", "%s %d %v", "100%", "%!s(MISSING)", "50%% done", "a %[1]d b", "%"}, "percent")
 	case -2:
 		m = g.Pick([]string{`back\slash \n`, `"quoted" 'single'`, "$HOME `id` $(x)", "a;b|c&d", "<tag> & more", "{braces} [brackets]", "#hash ~tilde ^caret", "-leading dash", "--amend"}, "punct")
+	case -4:
+		m = g.Pick([]string{"\nleading line break then three words\nmore: text here", "\n", "\n\n  indented after blank lines", "\nx", "one\n\n\n\nfour blank lines then a b c d"}, "leadingNL")
 	case -1:
 		m = plain.Draw(g.T, "m") + g.Pick([]string{" %", " \\", " \"", " '", " $", " !"}, "tailch")
 	case 0:
@@ -301,7 +303,8 @@ func (g *G) Message(hostile bool) string {
 }
 
 func (g *G) UserName() string {
-	return rapid.StringMatching(`[A-Za-zé日][A-Za-z0-9é日.'-]{0,8}( [A-Za-z(][A-Za-z0-9)>:=#]{0,6}){0,2}`).Draw(g.T, "uname")
+	// printable UTF-8 without '<' and line breaks; inner single spaces; not starting with '-' (it is a CLI argument)
+	return rapid.StringMatching(`[A-Za-zé日%$&(][A-Za-z0-9é日.'%$&*",;!?@\[\]{}|~^+_/\\:=#)>-]{0,8}( [A-Za-z(%][A-Za-z0-9)>:=#%&*!]{0,6}){0,2}`).Draw(g.T, "uname")
 }
 
 func (g *G) Email() string {
